@@ -7,7 +7,7 @@
 //!
 //! Space: identity documents with k remote delegates (+ the local node as a further delegate or
 //! not), every threshold 1..=n; per remote delegate a sigrefs state ∈ {missing, behind, equal,
-//! ahead, diverged, invalid-signature, invalid-content}; announced `refs_at` absent | the tips the
+//! ahead, diverged (from a common ancestor), diverged-unrelated (no common commit), invalid-signature, invalid-content}; announced `refs_at` absent | the tips the
 //! server holds. ("invalid" of the property is split in two so that both the loader's rejection
 //! and the validation/threshold arithmetic are reached.)
 //!
@@ -40,11 +40,12 @@ enum DState {
     Equal,
     Ahead,
     Diverged,
+    Unrelated,
     InvalidSignature,
     InvalidContent,
 }
 
-const STATES: [DState; 7] = [DState::Missing, DState::Behind, DState::Equal, DState::Ahead, DState::Diverged, DState::InvalidSignature, DState::InvalidContent];
+const STATES: [DState; 8] = [DState::Missing, DState::Behind, DState::Equal, DState::Ahead, DState::Diverged, DState::Unrelated, DState::InvalidSignature, DState::InvalidContent];
 const FOURTH: [DState; 4] = [DState::Equal, DState::Ahead, DState::InvalidSignature, DState::InvalidContent];
 
 impl DState {
@@ -55,6 +56,7 @@ impl DState {
             DState::Equal => "equal",
             DState::Ahead => "ahead",
             DState::Diverged => "diverged",
+            DState::Unrelated => "diverged-unrelated",
             DState::InvalidSignature => "invalid-signature",
             DState::InvalidContent => "invalid-content",
         }
@@ -70,6 +72,7 @@ impl DState {
             DState::Equal => Tamper::Honest,
             DState::Ahead => Tamper::AheadV3,
             DState::Diverged => Tamper::Diverged,
+            DState::Unrelated => Tamper::Unrelated,
             DState::InvalidSignature => Tamper::BadSignature,
             DState::InvalidContent => Tamper::ListsSigrefsItself,
         }
@@ -134,13 +137,16 @@ fn configs(thorough: bool) -> Vec<FixCfg> {
     out
 }
 
-fn space(cfgs: &[FixCfg]) -> Space {
+fn space(cfgs: &[FixCfg], thorough: bool) -> Space {
+    // quick: the second remote delegate skips `behind` and `invalid-content` (both are enumerated on
+    // d1, and on every delegate in the thorough tier).
+    let second: Vec<DState> = STATES.iter().copied().filter(|s| thorough || !matches!(s, DState::Behind | DState::InvalidContent)).collect();
     let families = cfgs
         .iter()
         .enumerate()
         .map(|(fi, c)| {
             let k = c.delegates.len();
-            let alphabets: Vec<Vec<DState>> = (0..k).map(|j| if j == 3 { FOURTH.to_vec() } else { STATES.to_vec() }).collect();
+            let alphabets: Vec<Vec<DState>> = (0..k).map(|j| if j == 3 { FOURTH.to_vec() } else if j == 1 { second.clone() } else { STATES.to_vec() }).collect();
             let mut dims: Vec<u64> = alphabets.iter().map(|a| a.len() as u64).collect();
             dims.push(2);
             Family { fixture: fi, alphabets, radix: Radix::new(&dims) }
@@ -260,7 +266,7 @@ fn main() {
         hs.into_iter().map(|h| h.join().unwrap_or_else(|_| machinery("fixture build panicked"))).collect()
     });
     let fixture_s = t_fix.elapsed().as_secs_f64();
-    let sp = space(&cfgs);
+    let sp = space(&cfgs, thorough);
     let n = sp.size();
     let busy_ns = std::sync::atomic::AtomicU64::new(0);
     let t_sweep = std::time::Instant::now();
@@ -323,7 +329,7 @@ fn main() {
             "trusted: git upload-pack (spawned with the worker's exact command line), libgit2, the file system",
             "invalid-signature = honest child of the held sigrefs with one signature bit flipped; invalid-content = correctly signed blob that lists rad/sigrefs itself; missing = the namespace does not exist on the server",
             "the serving peer is d1; scope All; the local node's own namespace (when it is a delegate) is served honestly",
-            "thorough: the fourth remote delegate ranges over {equal, ahead, invalid-signature, invalid-content} only",
+            "thorough: the fourth remote delegate ranges over {equal, ahead, invalid-signature, invalid-content} only; quick: the second remote delegate skips behind and invalid-content",
         ],
         std::mem::take(&mut st.violations),
     );
